@@ -84,6 +84,8 @@ class Session:
             def sleep(s, _self=self):
                 if s < 0:
                     raise ValueError("sleep length must be non-negative")      # as the real time.sleep
+                if s > 9223372036.854775807:
+                    raise OverflowError("timestamp out of range for platform time_t")      # as the real time.sleep (int64 nanoseconds)
                 _self.sleeps.append(s)
         self._orig_time = ctrl_if.time
         ctrl_if.time = _Time
